@@ -69,6 +69,16 @@ func swarmBase(t *Tape) FleetCfg {
 	c.MemDec = 1 + t.Choose("cfg-memdec", 2)
 	c.BigDelta = pick(t, "cfg-bigdelta", 20, 0, 120)
 	c.StaggerStart = t.Choose("cfg-stagger", 2) == 1
+	if simDepth >= 2 && t.Choose("cfg-deep", 3) == 0 {
+		// thorough tier: a third of the runs are larger worlds with longer
+		// histories (more instances, keys, application transactions, steps)
+		c.N = 2 + t.Choose("cfg-deep-n", 5)
+		for i := nkeys + 1; i <= nkeys+t.Choose("cfg-deep-keys", 5); i++ {
+			c.Work.Keys = append(c.Work.Keys, fmt.Sprintf("k%d", i))
+		}
+		c.AppTxns *= 2 + t.Choose("cfg-deep-txns", 3)
+		c.Steps *= 2 + t.Choose("cfg-deep-steps", 3)
+	}
 	return c
 }
 
